@@ -891,6 +891,76 @@ def tx_environ_init(cls):
         fail("Environ.__init__ touches the store directly", c)
 
 
+# ----------------------------------------------------------------------------- tree optimiser: pinned sources
+# Model/TreeOpt.v is a hand model of these functions (tied by event traces).  Their statement structure is pinned:
+# any change makes the translation fail closed, so that the model is looked at again.
+import hashlib
+
+TREE_PINS = {
+    "gs.optimize_recursion": "4781d9225458c0cf",
+    "tree.TTNEnviron.__init__": "f8f631fe561a1d64",
+    "tree.TTNEnviron.build_children_environ": "e07383636bdb794d",
+    "tree.TTNEnviron.build_parent_environ": "82cb96e35b0f2bca",
+    "tree.TTNEnviron.update_2site": "6e12b4125237be57",
+    "tree.TTNEnviron.build_children_environ_node": "83601f664f03322d",
+    "tree.TTNEnviron.build_parent_environ_node": "f6a15cebb4c2c507",
+    "hop_expr.hop_expr2": "f27d4752172baf22",
+    "treebase.Tree.__init__": "867c65a07f3379c8",
+    "treebase.Tree.preorder_list": "c596630c9aefa1ad",
+    "treebase.Tree.postorder_list": "aeef8deb561a51da",
+}
+
+
+def body_hash(f):
+    return hashlib.sha1("\n".join(ast.dump(st) for st in strip_doc(f.body)).encode()).hexdigest()[:16]
+
+
+def pin_tree(repo):
+    base = repo + "/renormalizer/tn/"
+    mods = {nm: ast.parse(open(base + nm + ".py").read()) for nm in ("gs", "tree", "hop_expr", "treebase")}
+    changed = []
+    for key, want in TREE_PINS.items():
+        parts = key.split(".")
+        mod = mods[parts[0]]
+        f = find_func(find_class(mod, parts[1]), parts[2]) if len(parts) == 3 else find_func(mod, parts[1])
+        if body_hash(f) != want:
+            changed.append(key)
+    if changed:
+        fail("tree optimiser sources changed (Model/TreeOpt.v must be re-validated): " + ", ".join(changed))
+    # optimize_ttns: one cache, built before the loop; one optimize_recursion(root) per procedure entry; nothing else touches the cache
+    f = find_func(mods["gs"], "optimize_ttns")
+    body = strip_doc(f.body)
+    loops = [st for st in body if isinstance(st, ast.For)]
+    if len(loops) != 1 or ast.unparse(loops[0].iter) != "procedure":
+        fail("optimize_ttns: sweep loop", f)
+    k = body.index(loops[0])
+    cons = [c for st in body[:k] for c in ast.walk(st) if isinstance(c, ast.Call) and ast.unparse(c.func) == "TTNEnviron"]
+    if len(cons) != 1 or [ast.unparse(a) for a in cons[0].args] != ["ttns", "ttno"] or cons[0].keywords:
+        fail("optimize_ttns: TTNEnviron(ttns, ttno) must be built once before the loop", f)
+    rec = [c for c in ast.walk(loops[0]) if isinstance(c, ast.Call) and ast.unparse(c.func) == "optimize_recursion"]
+    if len(rec) != 1 or [ast.unparse(a) for a in rec[0].args][:4] != ["ttns.root", "ttns", "ttno", "ttne"]:
+        fail("optimize_ttns: optimize_recursion call", loops[0])
+    for st in body:
+        for c in ast.walk(st):
+            if isinstance(c, ast.Call) and isinstance(c.func, ast.Attribute) and ast.unparse(c.func.value) == "ttne":
+                fail("optimize_ttns touches the environment cache directly: %s" % ast.unparse(c), c)
+            if isinstance(c, ast.Call) and ast.unparse(c.func) in ("TTNEnviron",) and st in body[k:]:
+                fail("optimize_ttns rebuilds the cache inside / after the loop", c)
+    # optimize_2site reads the cache only through hop_expr2
+    f = find_func(mods["gs"], "optimize_2site")
+    hops = [c for c in ast.walk(f) if isinstance(c, ast.Call) and ast.unparse(c.func) == "hop_expr2"]
+    if len(hops) != 1 or [ast.unparse(a) for a in hops[0].args] != ["snode", "ttns", "ttno", "ttne"]:
+        fail("optimize_2site: hop_expr2(snode, ttns, ttno, ttne)", f)
+    for c in ast.walk(f):
+        if isinstance(c, ast.Attribute) and ast.unparse(c.value) == "ttne":
+            fail("optimize_2site touches the cache directly", c)
+    # TTNS.update_2site stores the node tensor, then the parent tensor
+    f = find_func(find_class(mods["tree"], "TTNS"), "update_2site")
+    stores = [ast.unparse(t) for st in ast.walk(f) if isinstance(st, ast.Assign) for t in st.targets if isinstance(t, ast.Attribute) and t.attr == "tensor"]
+    if stores != ["node.tensor", "parent.tensor"]:
+        fail("TTNS.update_2site tensor stores: %r" % stores, f)
+
+
 # ----------------------------------------------------------------------------- rendering
 def render(d):
     o = []
@@ -963,6 +1033,7 @@ def main(repo="/repo"):
     d["cons"] = tx_construct(envcls)
     d["sweep"] = tx_single_sweep(gs)
     d["init"] = tx_optimize_mps(gs)
+    pin_tree(repo)
     # Mps.__setitem__ must delegate to MatrixProduct.__setitem__ (the event hook sits there)
     mpsmod = ast.parse(open(base + "mps.py").read())
     si = find_func(find_class(mpsmod, "Mps"), "__setitem__")
